@@ -309,6 +309,40 @@ def run_case(case, ctx):
         raise Violation("default-construction-raised", f"T() raised {z}: {desc()}", z.where)
     if libside.cplain(z) != refsem.canon(sem.default(common.ROOT)):
         raise Violation("default-not-zero", f"T() holds {libside.cplain(z)!r}, reference zero value {refsem.canon(sem.default(common.ROOT))!r}: {desc()}")
+    # ---- locality below a DEFAULT-built member: assigning inside one element of a default array of structures (or one
+    # cell of a default multi-dimensional array) changes that element's bytes only
+    for i_, f_ in enumerate(root["fields"]):
+        ft_ = sem.res(f_["t"])
+        if f_.get("name") is None or ft_["k"] != "a" or ft_["len"][0] != "fixed" or ft_["len"][1] < 2:
+            continue
+        et_ = sem.res(ft_["t"])
+        dmodel = copy.deepcopy(sem.default(common.ROOT))
+        zobj = T()
+        lname = lf[i_]._name
+        idx_ = ft_["len"][1] - 1
+        if et_["k"] == "st" and et_["kind"] == "struct":
+            cand = [(j_, g_) for j_, g_ in enumerate(et_["fields"]) if g_.get("name") and not g_.get("bits") and sem.res(g_["t"])["k"] == "s" and refsem.SCALARS[sem.res(g_["t"])["n"]][0] == "int"]
+            if not cand:
+                continue
+            j_, g_ = cand[0]
+            ename = type(getattr(zobj, lname)[idx_]).__fields__[j_]._name
+            r_ = lib(setattr, getattr(zobj, lname)[idx_], ename, 1)
+            dmodel[fkey(f_, i_)][idx_][fkey(g_, j_)] = 1
+            what_ = f"T().{lname}[{idx_}].{ename} = 1"
+        elif et_["k"] == "a" and et_["len"][0] == "fixed" and et_["len"][1] >= 1 and sem.res(et_["t"])["k"] == "s" and refsem.SCALARS[sem.res(et_["t"])["n"]][0] == "int":
+            r_ = lib(getattr(zobj, lname)[idx_].__setitem__, 0, 1)
+            dmodel[fkey(f_, i_)][idx_][0] = 1
+            what_ = f"T().{lname}[{idx_}][0] = 1"
+        else:
+            continue
+        if isinstance(r_, Err):
+            raise Violation("assignment-raised", f"{what_}: {r_}: {desc()}", r_.where)
+        dz = lib(zobj.dumps)
+        ez = bytes(sem.encode(common.ROOT, dmodel))
+        if isinstance(dz, Err) or dz != ez or libside.cplain(zobj) != refsem.canon(dmodel):
+            raise Violation("assignment-not-local", f"{what_} on a default-constructed instance: the instance holds {libside.cplain(zobj)!r} and dumps {dz!r}; only that element changes: {refsem.canon(dmodel)!r} / {ez.hex()}: {desc()}")
+        ctx.count("assign:inside-an-element-of-a-default-array")
+        break
     # ---- constructor: positional + keyword == default + setattr
     npos = min(case["npos"], nfields)
     vals = [getattr(a, f._name) for f in lf]
